@@ -360,7 +360,17 @@ func show(sb *strings.Builder, n *Node, named map[int]bool, depth int) {
 	if n.Binders != "" {
 		q := n.Op[:strings.Index(n.Op, "|")]
 		fmt.Fprintf(sb, "(%s (%s) ", q, n.Binders)
+		if len(n.Pattern) > 0 {
+			sb.WriteString("(! ")
+		}
 		show(sb, n.Args[0], named, depth+1)
+		if len(n.Pattern) > 0 {
+			sb.WriteString(" :pattern (")
+			for _, p := range n.Pattern {
+				show(sb, p, named, depth+1)
+			}
+			sb.WriteString("))")
+		}
 		sb.WriteString(")")
 		return
 	}
